@@ -240,6 +240,34 @@ func (g *Gen) rawAction() (Action, bool) {
 	return Action{Op: "raw", SMF: m.Idx, Raw: hex.EncodeToString(b), From: from}, true
 }
 
+// rawResponse: a response-shaped datagram (any response type, possibly mutated) that
+// carries the sequence number of a request the UPF still has outstanding, from the
+// address that request went to.
+func (g *Gen) rawResponse() (Action, bool) {
+	s := g.s
+	var open []*UpReq
+	for _, u := range s.ansQ {
+		if !u.Answered {
+			open = append(open, u)
+		}
+	}
+	if len(open) == 0 {
+		return Action{}, false
+	}
+	u := open[g.intn(len(open))]
+	t := uint8(pick(g.rng, mtHeartbeatRsp, mtAssocSetupRsp, 4, 8, 10, 13, 15, mtSessEstRsp, mtSessModRsp, mtSessDelRsp, mtSessReportRsp, mtSessReportRsp))
+	pm := &PMsg{Type: t, Seq: u.Seq, HasSEID: t >= 50}
+	if pm.HasSEID {
+		pm.SEID = pick(g.rng, uint64(0), s.model.upSEIDFor(u.CPSEID, u.Dst), 1, ^uint64(0), 1<<63)
+	}
+	pm.IEs = append(pm.IEs, tlv(ieCause, byte(pick(g.rng, 1, 64, 65, 0, 255))))
+	b := pm.Marshal()
+	if g.chance(0.3) {
+		b = g.mutate(b)
+	}
+	return Action{Op: "raw", SMF: u.SMF, Raw: hex.EncodeToString(b), From: u.Dst}, true
+}
+
 // afterRaw: the C07 oracle for one malformed datagram.
 func (s *Sim) checkRaw(ctx *StepCtx) {
 	if !s.oracleOn("C07") || ctx.Kind != "deliver" || ctx.Dg.Intent != nil || ctx.Dg.Ans != nil {
